@@ -155,6 +155,62 @@ def scaled_cme(ctx, spec, V, nruns, seed0):
                       {"spec": spec, "V": V, "nruns": nruns, "seed0": seed0, "G": G, "p": p})
 
 
+def closed_form_svol(spec, pv, x, V):
+    """the documented volume-scaled stochastic rates, written out in Python from the reaction definitions (no bioscrape
+    code involved): mass action k * prod_s x_s(x_s-1)...(x_s-m_s+1) / V^(r-1) (times V for r = 0); Hill terms on s/V.
+    None for rate laws not covered (general)."""
+    out = []
+    for r in spec["reactions"]:
+        pr = r["prop"]
+        t = pr["type"]
+        if t == "massaction":
+            a = float(pv[pr["k"]])
+            order = len(r["reactants"])
+            for sname in sorted(set(r["reactants"])):
+                m = r["reactants"].count(sname)
+                for j in range(m):
+                    a *= max(x[sname] - j, 0.0)
+            out.append(a * V if order == 0 else a / V ** (order - 1))
+        elif t in ("hillpositive", "hillnegative", "proportionalhillpositive", "proportionalhillnegative"):
+            k, K, n = float(pv[pr["k"]]), float(pv[pr["K"]]), float(pv[pr["n"]])
+            c = x[pr["s1"]] / V
+            h = (c / K) ** n
+            a = k * h / (1 + h) if "positive" in t else k / (1 + h)
+            if "proportional" in t:
+                a *= x[pr["d"]]          # proportional to the *count* of d; the Hill term makes the rate per unit volume
+            else:
+                a *= V
+            out.append(a)
+        else:
+            out.append(None)
+    return out
+
+
+def scaling_oracle(ctx, spec, V, rng):
+    """a bimolecular constant acts as k/V, a zero-order constant as k*V, order r as k/V^(r-1): the interface's stochastic
+    volume propensities against the closed forms written out above, at random integer states."""
+    M = build_model(spec)
+    from bioscrape.simulator import ModelCSimInterface
+    I = ModelCSimInterface(M)
+    sl = M.get_species_list()
+    pv = dict(zip(M.get_param_list(), M.get_parameter_values()))
+    for _ in range(6):
+        x = {s_: float(rng.randint(0, 9)) for s_ in sl}
+        got = np.array(I.py_verif_compute_propensities(np.array([x[s_] for s_ in sl]), "svol", float(V), 0.0), dtype=float)
+        want = closed_form_svol(spec, pv, x, float(V))
+        ctx.evaluated()
+        for j, w in enumerate(want):
+            if w is None or spec["reactions"][j]["prop"]["type"] != "massaction":
+                continue            # Hill scaling is decided by C01 (its exact placement of V is part of C01's closed forms)
+            if abs(got[j] - w) > 1e-9 * max(1.0, abs(w)):
+                ctx.violation("volume/scaling/order-%d" % len(spec["reactions"][j]["reactants"]),
+                              "reaction %d (%s) at V=%g, state %s: stochastic volume propensity %r, the volume-scaled rate law gives %r"
+                              % (j, "+".join(spec["reactions"][j]["reactants"]) or "0", V, x, float(got[j]), w),
+                              {"spec": spec, "V": V, "state": x, "reaction": j, "got": float(got[j]), "want": w})
+                return
+        ctx.count("scaling_points")
+
+
 def run(ctx):
     rng = ctx.rng
     nnet, nseeds = (24, 3) if ctx.quick() else (300, 15)
@@ -165,6 +221,7 @@ def run(ctx):
         T = np.arange(0, rng.choice([20, 40, 80]) + 1) * dt
         seeds = [rng.randint(1, 2**31) for _ in range(nseeds)]
         vol0 = rng.choice([0.25, 0.5, 1.0, 2.0, 4.5])
+        scaling_oracle(ctx, spec, rng.choice([0.25, 0.5, 2.0, 4.5]), rng)
         c = i % 4
         if c == 0:
             corr(ctx, spec, T, seeds, "const", {}, vol0, safe)
@@ -183,7 +240,10 @@ def run(ctx):
 
 def replay(ctx, obj):
     rep = obj.get("replay") or obj["broken"][0]["detail"]
-    if "grid" in rep:
+    if "state" in rep and "V" in rep:
+        import common
+        scaling_oracle(ctx, rep["spec"], rep["V"], common.SplitMix64(1))
+    elif "grid" in rep:
         corr(ctx, rep["spec"], np.array(rep["grid"]), [rep["seed"]], rep["volume"], rep["args"], rep["vol0"], rep.get("safe", False))
     else:
         scaled_cme(ctx, rep["spec"], rep["V"], rep.get("nruns", 2500), rep.get("seed0", 1))
